@@ -47,6 +47,15 @@ CHECKS = {
  "C12": dict(cat="exploration", technique="timed wire-level monitor with measured waiting intervals and margins",
    text="Messages with and without expiry from v5/v3/API publishers wait in the broker (subscriber online, offline, or slow) for times chosen well on either side of min(expiry, configured maximum); delivery vs drop+OnMsgDropped(expired) and the forwarded Message Expiry Interval are checked against the measured waiting interval.",
    note="real time, 400 ms margins, cases inside the margin are inconclusive, verdicts must recur", ref="§5 C12"),
+ "C05": dict(cat="exploration", technique="timed wire-level session model + take-over storms under the Go race detector with injected delays at lock hand-over points",
+   text="(a) lifecycle histories (expiry values, connection durations longer than the expiry, DISCONNECT with new expiry, abrupt close, TerminateSession, take-over) judged by a session model from measured times with margins: Session Present, CONNACK expiry, subscriptions and queued messages; (b) thousands of storms of simultaneous CONNECTs with one client id on new/offline/online sessions: exactly one socket stays attached, hook log never shows two attached connections, GetClient is the survivor, nothing reaches displaced sockets; plus the deterministic take-over of a stuck consumer.",
+   note="built with -race and -tags verif (yield hooks); real time with 400 ms margins for (a); race reports from gmqtt code fail the check", ref="§5 C05"),
+ "C09": dict(cat="fault_enumeration", technique="crash-point enumeration over the journal of an in-process redis stand-in; recovery checked by restarting a real broker on every prefix",
+   text="A real broker on the redis back end executes generated client histories step by step against fakeredis, which journals every state-changing command; for every prefix of the journal (thorough) a fresh broker is started on the replayed state and must start, know every acknowledged session, have exactly the acknowledged subscriptions with their options, redeliver every publisher-acknowledged and subscriber-unacknowledged QoS>0 message and still recognise QoS2 ids awaiting PUBREL; operations in flight at the crash point may be either way.",
+   note="trusted: fakeredis (passes gmqtt's redis store suites), mqttx; single redis commands are atomic; redis-internal durability is out of scope", ref="§5 C09"),
+ "C15": dict(cat="exploration", technique="Go race detector + panic/deadlock/termination monitors over chaos workloads with schedule perturbation; porcupine linearizability of recorded store histories",
+   text="Chaos runs (20-60 clients incl. shared client ids, slow consumers, half-open and refused connections, 4 API goroutines, wills, expiries, Stop under traffic, GOMAXPROCS 1/2/4/16, seeded delays at lock hand-over points) under the race detector; monitors: race log filtered to gmqtt frames, recovered/fatal panics, 30 s request watchdog with goroutine dumps, Stop result and duration, listeners closed, sockets at EOF, plugin Load/Unload/OnStop exactly once, no broker goroutine left after 10 s; recorded concurrent histories of the retained and subscription stores checked with porcupine.",
+   note="the race detector only sees schedules produced; goroutines attributed by function name with one broker per process at a time; known finding: Stop does not close not-yet-registered connections", ref="§5 C15"),
 }
 
 def main():
